@@ -1296,7 +1296,8 @@ pub fn oracle_level_checks(run: &E1Run, rng: &mut Rng, oracle: &mut Oracle) -> (
     if rng.chance(1, 4) {
         let l = gen::atom(rng);
         // (the operand is bracketed: {"log": [1,2,3]} would be a log with three operands)
-        let rule = json!({"cat": [{"log": [l.clone()]}, {"+": [{"var": "v"}]}]});
+        // the failure is produced by `+` itself, after its operands have been evaluated in whatever order
+        let rule = json!({"+": [{"log": [l.clone()]}, {"var": "v"}]});
         let op = Op::apply(&rule.to_string(), "{\"v\":\"x\"}", false);
         let a = oracle.query(&op, ORACLE_STACK_KB);
         n += 1;
@@ -1515,7 +1516,12 @@ pub fn recheck_oracle_level(target: &Violation, oracle: &mut Oracle) -> Vec<Viol
     } else if target.class == "log-line-lost-or-changed-when-the-call-fails-later" {
         let a = oracle.query(&op, ORACLE_STACK_KB);
         if let Ok(rule) = serde_json::from_str::<Value>(&op.args[0]) {
-            if let Some(l) = rule.get("cat").and_then(|c| c.get(0)).and_then(|x| x.get("log")).and_then(|a| a.as_array()).filter(|a| a.len() == 1).map(|a| &a[0]) {
+            // the clause is about this exact shape only (minimisation may shrink L, nothing else)
+            let shape_ok = rule.get("+").and_then(|c| c.as_array()).map(|c| c.len() == 2 && c[1] == json!({"var": "v"})).unwrap_or(false) && op.args[1] == "{\"v\":\"x\"}";
+            if !shape_ok {
+                return v;
+            }
+            if let Some(l) = rule.get("+").and_then(|c| c.get(0)).and_then(|x| x.get("log")).and_then(|a| a.as_array()).filter(|a| a.len() == 1).map(|a| &a[0]) {
                 let want = format!("{}\n", l);
                 if !matches!(a.res, Res::Err(_)) || a.out() != want {
                     v.push(target.clone());
